@@ -1043,3 +1043,19 @@ package iavl
 //@   callsite NewUnsavedFastIterator [overlay-merged] !tree.skipFastStorageUpgrade && tree.ImmutableTree.version == old(tree.ImmutableTree.ndb.latestVersion) && arg0 == start && arg1 == end && arg2 == ascending && arg3 == tree.ndb && arg4 == tree.unsavedFastNodeAdditions && arg5 == tree.unsavedFastNodeRemovals
 //@   callsite ImmutableTree).Iterator [fallback] arg0 == tree.ImmutableTree && arg1 == start && arg2 == end && arg3 == ascending
 //@   modifies *
+
+// ---------------------------------------------------------------- mutable_tree.go: saveNewNodes — node keys of a commit (C12/C14/C02)
+//
+// Every node without a key gets (version, nonce) with a nonce that was never
+// handed out before in this commit (strictly increasing counter, pre-order),
+// already keyed nodes are left alone, the hash is computed for the committed
+// version, and the node is queued after its children (so the root is written last).
+//@ func (*MutableTree).saveNewNodes$1(node) (key, err)
+//@   props C12 C14 C02
+//@   nosafety
+//@   ensures [keyed-stay] forall(n, imp(0 < n && n < old(na) && old(ptr(n, "Node").nodeKey) != nil, ptr(n, "Node").nodeKey == old(ptr(n, "Node").nodeKey)))
+//@   ensures [keys-frozen] forall(k, imp(0 < k && k < old(na), ptr(k, "NodeKey").version == old(ptr(k, "NodeKey").version) && ptr(k, "NodeKey").nonce == old(ptr(k, "NodeKey").nonce)))
+//@   ensures [keyed-untouched] old(node.nodeKey) != nil ==> *nonce == old(*nonce)
+//@   ensures [fresh-key] old(node.nodeKey) == nil && err == nil && old(*nonce) < 4294967295 ==> node.nodeKey != nil && fresh(node.nodeKey) && node.nodeKey.version == *version && node.nodeKey.nonce == old(*nonce) + 1
+//@   callsite Node)._hash [hash-of-committed-version] arg0 == node && arg1 == version
+//@   modifies *
